@@ -971,7 +971,7 @@ class C04Check(StreamCheckBase):
         "actually refused at least one instance whose utility alone would have been granted, or a chunk crossed the budget limit. "
         "Distinct by (subject, adversary family, probe set, budget bucket, window, size bucket)."
     )
-    fault_kinds = ["corrupt_utility", "rechunk", "spurious_dup", "rebudget"]
+    fault_kinds = ["corrupt_utility", "rechunk", "spurious_dup", "rebudget", "rewindow", "update_before_first_query"]
     probes_expected = ["budget_exhausted_inside_chunk", "guard_refused", "grant_at_exact_bound", "nan_utility_seen", "w_eq_1", "budget_eq_1"]
     assumptions = [
         "the caller reports to update exactly what query returned (honest caller)",
@@ -1026,6 +1026,18 @@ class C04Check(StreamCheckBase):
         if subject["kind"] == "manager" and len(sc["chunks"]) > 3 and f.chance(0.25):
             # the caller re-configures the used manager (set_params) between two chunks
             sc["rebudget"] = {"at": f.randrange(1, len(sc["chunks"]) - 1), "budget": f.pick([0.05, 0.1, 0.3, round(f.log_uniform(0.02, 0.9), 3)])}
+        elif subject["kind"] == "manager" and subject["cls"] in WINDOW_MANAGERS and len(sc["chunks"]) > 3 and f.chance(0.2):
+            # ... or gives it another window (the estimate u_t_ is carried over, documented state)
+            sc["rewindow"] = {"at": f.randrange(1, len(sc["chunks"]) - 1), "w": f.pick([1, 2, 5, 10, 100, 4 * int(w)])}
+        if f.chance(0.15):
+            # a warm-up chunk is reported through update() before the first query (no label acquired):
+            # update, not query, performs the lazy initialisation
+            m0 = f.pick([1, 1, 3, 8])
+            if subject["kind"] == "manager":
+                rows0 = [[float(x)] for x in gen_utilities(f.fork("uf"), m0, f.pick(ADVERSARIES), budget)]
+            else:
+                rows0 = np.array(sc["X"])[f.np("uf").randint(0, len(sc["X"]), m0)].tolist()
+            sc["update_first"] = {"rows": rows0, "utilities": np.round(f.np("ufu").random_sample(m0), 6).tolist()}
         return sc
 
     # reference models -------------------------------------------------
@@ -1081,8 +1093,38 @@ class C04Check(StreamCheckBase):
         aborted = False
         n_at_rebudget = 0
         q_at_rebudget = 0
+        n_warm = 0
+        uf = sc.get("update_first")
+        if uf:
+            rows0 = np.array(uf["rows"], dtype=float)
+            if drv.is_manager:
+                rows0 = rows0[:, 0]
+            try:
+                drv.update_rows(rows0, np.array([], dtype=int), np.array(uf["utilities"], dtype=float))
+            except Exception as e:
+                ctx.notes.append(f"warm-up update raised {type(e).__name__}: {e}")
+                return ctx.result(sig=subj + "|warmup-raised", extra={"aborted": True, "notes": ctx.notes[:3]})
+            ctx.fault("update_before_first_query")
+            n_warm = len(rows0)
+            # the warm-up instances were seen and not labelled
+            if model["kind"] == "window":
+                for _ in range(n_warm):
+                    u_model = u_model * ((model["w"] - 1) / model["w"])
+            elif model["kind"] == "density":
+                t_model += n_warm
         for k, c in enumerate(sc["chunks"]):
             rows = drv.rows(pos, pos + c)
+            rw = sc.get("rewindow")
+            if rw and rw["at"] == k:
+                try:
+                    drv.obj.set_params(w=int(rw["w"]))
+                except Exception as e:
+                    ctx.notes.append(f"set_params raised {e!r}")
+                    aborted = True
+                    break
+                model["w"] = int(rw["w"])
+                ctx.fault("rewindow")
+                n_at_rebudget, q_at_rebudget = max(pos, 1), q_total
             rb = sc.get("rebudget")
             if rb and rb["at"] == k:
                 try:
@@ -1120,7 +1162,7 @@ class C04Check(StreamCheckBase):
             # per-instance oracle
             for i in range(c):
                 g_i = 1 if i in ql else 0
-                n_seen = pos + i + 1
+                n_seen = n_warm + pos + i + 1
                 if model["kind"] == "window":
                     w = model["w"]
                     est = u_model / w
